@@ -21,3 +21,32 @@ Proof.
   - unfold py_mod, py_floor. nunf. qb; try lra; (eexists; split; [reflexivity|]; cbn [is_ok toQ]; split; [reflexivity|]; floor_facts; try lra; try nra).
   - unfold py_mod, py_floor. nunf. qb; try lra; (eexists; split; [reflexivity|]; cbn [is_ok toQ]; split; [reflexivity|]; floor_facts; try lra; try nra).
 Qed.
+
+Ltac okleaf := eexists; split; [reflexivity|]; cbn [is_ok toQ]; split; [reflexivity|]; floor_facts; try lra; try nra.
+
+(* wrap: inside [lo, hi]; strictly below hi unless all three arguments are ints *)
+Lemma wrap_int_range x lo hi : (lo <= hi)%Z ->
+  exists r, py_wrap (I x) (I lo) (I hi) = I r /\ (lo <= r <= hi)%Z.
+Proof.
+  intros H. unfold py_wrap. cbn [is_int andb nsub nadd lift2].
+  rewrite py_mod_int by lia. cbn [nadd lift2].
+  eexists; split; [reflexivity|]. pose proof (Z.mod_pos_bound (x - lo) (hi - lo + 1) ltac:(lia)). lia.
+Qed.
+
+Lemma wrap_general x lo hi : is_ok x = true -> is_ok lo = true -> is_ok hi = true -> toQ lo < toQ hi ->
+  exists r, py_wrap x lo hi = r /\ is_ok r = true /\ toQ lo <= toQ r /\ toQ r <= toQ hi /\
+            (is_int x && is_int lo && is_int hi = false -> toQ r < toQ hi).
+Proof.
+  intros Hx Hlo Hhi H.
+  destruct x as [x|x|], lo as [lo|lo|], hi as [hi|hi|]; try discriminate; cbn [toQ] in H.
+  - destruct (wrap_int_range x lo hi) as [r [E [R1 R2]]]. { apply inj_lt in H. lia. }
+    exists (I r). split; [exact E|]. cbn [is_ok toQ is_int andb]. split; [reflexivity|].
+    rewrite <- !Zle_Qle. repeat split; try lia. discriminate.
+  - unfold py_wrap, py_floor; cbn [is_int andb]; nunf; qb; try lra; okleaf.
+  - unfold py_wrap, py_floor; cbn [is_int andb]; nunf; qb; try lra; okleaf.
+  - unfold py_wrap, py_floor; cbn [is_int andb]; nunf; qb; try lra; okleaf.
+  - unfold py_wrap, py_floor; cbn [is_int andb]; nunf; qb; try lra; okleaf.
+  - unfold py_wrap, py_floor; cbn [is_int andb]; nunf; qb; try lra; okleaf.
+  - unfold py_wrap, py_floor; cbn [is_int andb]; nunf; qb; try lra; okleaf.
+  - unfold py_wrap, py_floor; cbn [is_int andb]; nunf; qb; try lra; okleaf.
+Qed.
